@@ -340,10 +340,6 @@ def show(o):
     return o
 
 
-def _is_sig(o):
-    return isinstance(o, tuple)
-
-
 # ------------------------------------------------------------------ generators
 def rand_grid(rng, lo=-8, hi=24):
     dt = rng.choice(DTS)
@@ -688,7 +684,7 @@ def run(ctx):
     ok = ctx.coq_build("C09")
 
     rng = ctx.rng
-    n_hist = ctx.n(280, 6000)
+    n_hist = ctx.n(280, 10000)
     cases = list(corpus_cases())
     cases.append(({"kind": "exact"}, F9_HISTORY))
     cases.append(({"kind": "sys", "lead_in": "3/1", "k": "2/1"}, F9_HISTORY))
@@ -770,9 +766,12 @@ def run(ctx):
         ctx.oblige("witness:stale_cache_refuted-replayed", False, str(e)[-600:])
 
     # noise probes (implementation only)
-    n_noise = ctx.n(60, 1500)
+    n_noise = ctx.n(60, 2000)
     ctx.extra["noise_probe_histories"] = noise_probe(ctx, n_noise)
-    ctx.partial += []
+    ctx.partial += ["AntennaSystem theorems (sys_*) are for noiseless antennas and linear front ends only",
+                    "noise clause: proved on the model (noise_fixed_until_reset, noisy_full_waveform_is_noise_plus_sum); "
+                    "on the implementation it is probed on generated histories, not proved",
+                    "lead_in_covers assumes a uniform window and lead_in_time >= 0"]
     return ok
 
 
